@@ -31,13 +31,20 @@ def ops_small(T, tier):
 def run_merged(TA, nameA, TB, nameB, hA, hB, shape):
     """drive live A and B in one process; returns State of A.  shape 'toggled': B is constructed with xsd_check=False
     and switched to checked through the public setter before its history runs (B before A)"""
-    a = impl.State(impl.fresh(TA, el_name=nameA))
     if shape == 'toggled':
+        # B first (constructed unchecked, switched on), its whole history, and only then A is CONSTRUCTED
         b = impl.State(impl.fresh(TB, check=False, el_name=nameB))
         b.el.xsd_check = True
-    else:
-        b = impl.State(impl.fresh(TB, el_name=nameB))
-    if shape in ('before', 'toggled'):
+        for o in hB:
+            impl.apply(b, o)
+        a = impl.State(impl.fresh(TA, check=False, el_name=nameA))
+        a.el.xsd_check = True
+        for o in hA:
+            impl.apply(a, o)
+        return a
+    a = impl.State(impl.fresh(TA, el_name=nameA))
+    b = impl.State(impl.fresh(TB, el_name=nameB))
+    if shape == 'before':
         seq = [('b', o) for o in hB] + [('a', o) for o in hA]
     elif shape == 'after':
         seq = [('a', o) for o in hA] + [('b', o) for o in hB]
@@ -46,6 +53,19 @@ def run_merged(TA, nameA, TB, nameB, hA, hB, shape):
     for who, op in seq:
         impl.apply(a if who == 'a' else b, op)
     return a
+
+
+def template_digest():
+    """structure and attached-element counts of the per-type container templates (module-level shared objects every
+    new element copies).  Caches and flags are ignored: only a structural change or an attached element counts."""
+    import musicxml.xmlelement.containers as C
+
+    def rec(n):
+        c = n.content
+        att = len(c.xml_elements) if hasattr(c, 'xml_elements') else 0
+        return (type(c).__name__, getattr(c, 'name', None), n.min_occurrences, n.max_occurrences, att,
+                tuple(rec(k) for k in n.get_children()))
+    return hash(tuple((k, rec(v)) for k, v in sorted(C.containers.items())))
 
 
 def work_pairs(arg):
@@ -57,17 +77,43 @@ def work_pairs(arg):
     oc = collections.Counter()
     sigma = explore.reduced_alphabet(TA)
     solo = {}
+    solo_t = {}
+    td0 = template_digest()
+
+    def polluted(where):
+        if template_digest() != td0:
+            vio.append({'scope': TA, 'kind': 'cross-instance-effect',
+                        'key': [nameA, nameB, 'shared-container-template-changed', where]})
+            oc['aborted_after_first_violation'] += 1
+            return True
+        return False
     for hA in itertools.product(opsA, repeat=d):
         sa = impl.State(impl.fresh(TA, el_name=nameA))
         for op in hA:
             impl.apply(sa, op)
         solo[hA] = impl.G(sa)
+        st_ = impl.State(impl.fresh(TA, check=False, el_name=nameA))
+        st_.el.xsd_check = True
+        for op in hA:
+            impl.apply(st_, op)
+        solo_t[hA] = impl.G(st_)
+        if polluted('solo'):
+            return vio, dict(oc)
     for hA in itertools.product(opsA, repeat=d):
+        if polluted('interleavings'):
+            return vio, dict(oc)
         for hB in itertools.product(opsB, repeat=d):
             for shape in ('before', 'inside', 'after', 'toggled'):
                 oc['interleavings'] += 1
-                a = run_merged(TA, nameA, TB, nameB, hA, hB, shape)
-                if impl.G(a) == solo[hA]:
+                try:
+                    a = run_merged(TA, nameA, TB, nameB, hA, hB, shape)
+                except Exception as e:
+                    vio.append({'scope': TA, 'kind': 'cross-instance-effect',
+                                'key': [nameA, [list(o) for o in hA], nameB, [list(o) for o in hB], shape,
+                                        'construction-raises:' + type(e).__name__]})
+                    oc['aborted_after_first_violation'] += 1
+                    return vio, dict(oc)
+                if impl.G(a) == (solo_t if shape == 'toggled' else solo)[hA]:
                     continue
                 oc['graph_differs'] += 1
                 # confirm observationally: snapshot + acceptance of every next symbol, by replaying the merged run
@@ -76,7 +122,9 @@ def work_pairs(arg):
                     for x in [None] + list(sigma):
                         st = run_merged(TA, nameA, TB, nameB, hA, hB, shape) if merged else None
                         if st is None:
-                            st = impl.State(impl.fresh(TA, el_name=nameA))
+                            st = impl.State(impl.fresh(TA, check=(shape != 'toggled'), el_name=nameA))
+                            if shape == 'toggled':
+                                st.el.xsd_check = True
                             for op in hA:
                                 impl.apply(st, op)
                         if x is not None:
@@ -88,6 +136,10 @@ def work_pairs(arg):
                 if obs(True) != obs(False):
                     vio.append({'scope': TA, 'kind': 'cross-instance-effect',
                                 'key': [nameA, [list(o) for o in hA], nameB, [list(o) for o in hB], shape]})
+                    # process-wide state is now in doubt: everything this worker would explore afterwards is
+                    # meaningless (and may degrade without bound), so the worker stops here
+                    oc['aborted_after_first_violation'] += 1
+                    return vio, dict(oc)
                 else:
                     oc['graph_differs_not_observable'] += 1
     return vio, dict(oc)
@@ -112,6 +164,18 @@ def related_values(at):
     return sorted(vals) + PROBES
 
 
+_derived = {}
+
+
+def derived_types(t):
+    if not _derived:
+        for n, ct in R.CTYPES.items():
+            for c in ct:
+                if c.tag == R.XS + 'complexContent':
+                    _derived.setdefault(c[0].get('base'), []).append(n)
+    return _derived.get(t, [])
+
+
 def verdict_table(name):
     """acceptance verdicts of one class: text values and attribute values (exception class or 'ok')"""
     cls = impl.class_for(name)
@@ -125,7 +189,14 @@ def verdict_table(name):
             val = impl.valid_value(cls)
         except RuntimeError:
             return out
-        for (an, at, req) in R.ctype_attrs(t):
+        own = [(an, at) for (an, at, req) in R.ctype_attrs(t)]
+        # also the attributes that types EXTENDING this type add (a polluted shared table would make them acceptable)
+        extra = []
+        for d in derived_types(t):
+            for (an, at, req) in R.ctype_attrs(d):
+                if an not in [x[0] for x in own] and an not in [x[0] for x in extra]:
+                    extra.append((an, at))
+        for (an, at) in own + extra:
             if ':' in an:
                 continue
             for v in related_values(at):
@@ -167,6 +238,8 @@ def after_workload(arg):
         vio += v
         for k, x in o.items():
             oc[k] += x
+        if v:
+            return vio, dict(oc), {}, {}
     names = sorted(R.partwise_elements())
     return vio, dict(oc), {n: verdict_table(n) for n in names[::7]}, fresh_table()
 
